@@ -24,7 +24,7 @@ ASSUMPTIONS = [
     "generated curves are monotone non-decreasing sequences of 257 values in 0..0x8000",
 ]
 REQUIRED_LABELS = {
-    "quick": ["macro_single", "macro_multi", "macro_too_many", "macro_duplicate", "axis_normal", "axis_reversed", "unset_mapping_link", "curve_custom", "quantized", "convert_direct", "freed_slot_link", "link_to_controllerless_module"],
+    "quick": ["macro_single", "macro_multi", "macro_too_many", "macro_duplicate", "axis_normal", "axis_reversed", "unset_mapping_link", "curve_custom", "quantized", "convert_direct", "freed_slot_link", "link_to_controllerless_module", "multictl_out_offset_negative", "multictl_out_offset_set"],
     "thorough": ["macro_single", "macro_multi", "macro_too_many", "macro_duplicate", "axis_normal", "axis_reversed", "unset_mapping_link", "curve_custom", "quantized", "convert_direct", "compact_target"],
 }
 
@@ -216,6 +216,8 @@ def axis_case(draw):
         # still set), and a link to a module that lacks the mapped controller (the Output module)
         "freed_slot": draw(st.booleans()),
         "link_to_output": draw(st.booleans()),
+        # the MultiCtl's remaining controllers take any in-range value; containment and monotonicity hold whatever they are
+        "others": draw(st.one_of(st.just({}), st.fixed_dictionaries({}, optional={"out_offset": vs.edge_int(-16384, 16384, extra=(-1, 1, -8192, 8192)), "response": vs.edge_int(0, 1000, extra=(1, 500)), "sample_rate": vs.edge_int(1, 32768, extra=(150,))}))),
     }
 
 
@@ -238,7 +240,7 @@ def run_axis_case(ctx, case, stride=1):
         mappings.append((0, 0x8000, 0, 0, 0, 0, 0, 0))
     if case.get("link_to_output"):
         mappings.append((0, 0x8000, 2, 0, 0, 0, 0, 0))
-    kw = dict(gain=case["gain"], quantization=case["quantization"], mappings=mappings)
+    kw = dict(gain=case["gain"], quantization=case["quantization"], mappings=mappings, **case.get("others", {}))
     if case["curve"] is not None:
         kw["curve"] = list(case["curve"])
     mc = p.new_module(m.MultiCtl, **kw)
@@ -289,6 +291,8 @@ def run_axis_case(ctx, case, stride=1):
         labels.add("curve_custom")
     if case["quantization"] < 32768:
         labels.add("quantized")
+    for k, v in case.get("others", {}).items():
+        labels.add("multictl_%s_%s" % (k, "negative" if v < 0 else "set"))
     return labels
 
 
